@@ -210,7 +210,11 @@ Ltac arith :=
   cbn [sumf length w_ids w_st w_own fst snd] in *;
   try lia; unfold one in *; ifs; eqbs; idsubst; try lia; try congruence.
 
-Ltac start H l := destruct l; try (match goal with o : outcome |- _ => destruct o end); unfold step, is_ok, end_state in H; destr_step H; injection H as <-; proj.
+Ltac guards := repeat match goal with
+  | Hb : negb _ && _ = false |- _ => progress (cbn [negb andb orb Nat.eqb] in Hb); try discriminate Hb
+  end.
+
+Ltac start H l := destruct l; try (match goal with o : outcome |- _ => destruct o end); unfold step, is_ok, end_state in H; destr_step H; guards; injection H as <-; proj.
 
 Lemma pres_cons c s l s' : Inv c s -> step c s l = Some s' ->
   forall i, cnt i (queue s') + cnt i (holding s') + Nat.min 1 (parts_out i s') + sumf (fin1 i) (finished s')
